@@ -80,6 +80,9 @@ def check(case):
         src, xs, keys = src[::-1], xs[::-1], keys[::-1]
     elif upk == 'sortrev':
         src, xs, keys = src.sort(lambda x: -x), xs[::-1], keys[::-1]
+    elif upk == 'dupcat':
+        src, xs, keys = src.concatenate(src), xs + xs, keys + keys
+        cont = 'list'  # duplicate keys: the eager snapshot is list-backed, there is no key lookup
     elif upk == 'filt':
         src = src.filter(lambda x: x % 2 == 0)
         keys = [k for k, x in zip(keys, xs) if x % 2 == 0]
@@ -137,13 +140,14 @@ def check(case):
                 ever_short = True
             if not ever_short:
                 for p, cs in calls.items():
-                    if len(cs) > 1:
+                    if len(cs) > xs.count(p):  # (a value that occurs twice in the dataset is computed twice)
                         raise Violation('computed-twice', f'{desc}\nupstream ran {len(cs)} times for position {p} '
                                                           f'although memory permitted caching: calls {calls}')
             if case.get('eager') and sum(len(v) for v in calls.values()) != n:
                 raise Violation('eager-recomputed', f'{desc}\nupstream calls {calls}')
 
         last = []
+        short_computed = set()
         for step in case['steps']:
             kind = step[0]
             if kind == 'mut':
@@ -158,6 +162,8 @@ def check(case):
             if kind == 'mem':
                 before = mem.available > thr
                 mem.available = step[1] * GIB
+                if mem.available > thr:
+                    short_computed.clear()  # memory recovered: an un-latched copy may cache again
                 if before != (mem.available > thr):
                     crossing = True
                 continue
@@ -169,6 +175,9 @@ def check(case):
             p = pos % n
             if mem.available <= thr:
                 ever_short = True  # a miss during this access would not be cached
+            low_during = mem.available <= thr
+            calls_before = {x: len(v) for x, v in calls.items()}
+            cached_before = set(first)
             try:
                 if path == 'idx':
                     observe(p, d[p], path)
@@ -212,6 +221,17 @@ def check(case):
             except Exception as e:
                 raise Violation(f'access-raised|{path}', f'{desc}\nstep {step} raised {type(e).__name__}: {e}')
             after_access()
+            if low_during and not case.get('eager') and path in ('idx', 'neg', 'np64', 'np32', 'key'):
+                # "once the threshold is crossed no further examples are cached": a position that was not cached
+                # before and is read while memory is short must have been computed for THIS access
+                x = xs[p]
+                if p not in cached_before and len(calls.get(x, [])) == calls_before.get(x, 0) and \
+                        calls_before.get(x, 0) > 0 and x in short_computed:
+                    raise Violation(f'cached-although-memory-short|{path}',
+                                    f'{desc}\nposition {p} was first computed while memory was short, yet a later '
+                                    f'read (memory still short) was served without recomputation: calls {calls.get(x)}')
+                if p not in cached_before and len(calls.get(x, [])) > calls_before.get(x, 0):
+                    short_computed.add(x)  # computed for this access while memory was short: must not be cached
         multi = any(len(s) >= 2 for s in paths_used.values())
         return multi or crossing
     finally:
@@ -227,19 +247,19 @@ def replay(case):
 def st_case(draw):
     n = draw(st.integers(1, 5))
     case = {'n': n, 'container': draw(st.sampled_from(['list', 'dict'])),
-            'keep': draw(st.sampled_from(KEEPS)), 'available': draw(st.sampled_from([60, 40, 12, 4])),
+            'keep': draw(st.sampled_from(KEEPS)), 'available': draw(st.sampled_from([60, 40, 12, 4, 0.95])),
             'eager': draw(st.integers(0, 7)) == 0}
     if case['eager']:
         case['keep'] = None
         case['available'] = 60
-        case['upstream'] = draw(st.sampled_from([None, 'tail', 'rev', 'sortrev', 'filt']))
+        case['upstream'] = draw(st.sampled_from([None, 'tail', 'rev', 'sortrev', 'filt', 'dupcat']))
     else:
         case['upstream'] = draw(st.sampled_from([None, None, 'tail', 'rev', 'sortrev']))
     steps = []
     for _ in range(draw(st.integers(1, 9))):
         r = draw(st.integers(0, 11))
         if r == 0 and not case['eager']:
-            steps.append(['mem', draw(st.sampled_from([0.1, 60, 0.5, 40]))])
+            steps.append(['mem', draw(st.sampled_from([0.1, 60, 0.5, 40, 0.95, 0.95]))])
         elif r == 1:
             steps.append(['copy', draw(st.integers(0, 3))])
         elif r == 2:
